@@ -137,8 +137,9 @@ func (po *POutput) serialize(w io.Writer) error {
 		}
 	}
 
-	sort.Sort(psbt.Bip32Sorter(po.Bip32Derivation))
-	for _, kd := range po.Bip32Derivation {
+	derivations := append([]*psbt.Bip32Derivation{}, po.Bip32Derivation...)
+	sort.Sort(psbt.Bip32Sorter(derivations))
+	for _, kd := range derivations {
 		err := serializeKVPairWithType(
 			w,
 			uint8(psbt.Bip32DerivationOutputType),
